@@ -1,9 +1,12 @@
 package props
 
 import (
+	"time"
+
 	"bytes"
 	"encoding/json"
 	"fmt"
+	verifclock "github.com/ucan-wg/go-ucan/verifshim/clock"
 	"io"
 	"os"
 	"os/exec"
@@ -1171,4 +1174,81 @@ func c20ConcSub() *engine.Sub {
 			}
 			return cs
 		}, allPairs, fewProbes, 2, 3)
+}
+
+// ---- E6 for the authorization path shared by C01, C02, C04 and C05 ----
+
+// authConcSub: authorization checks over chains that are valid, or deviate in exactly the way the property is
+// about (and in the other ways), run from two logical threads under the controlled scheduler: every result is
+// the one the call gives alone.
+func authConcSub(prop string) *engine.Sub {
+	return engine.ConcurrentSub("concurrent-authorization-checks", "ExecutionAllowed / ExecutionAllowedWithArgsHook on DIFFERENT invocations of the same invoker over chains of 1 - 3 links of the same principals - valid ones, and ones with a broken link, a wrong subject, a widened command, an expired / not yet active link at each position, a delegation the loader does not have; chains of one length use the same proof CIDs, each invocation with its own loader - from two logical threads",
+		func(tier string) []engine.Call {
+			chainInit()
+			past := time.Now().Add(-time.Hour)
+			type chain struct {
+				name string
+				dl   []*delegation.Token // leaf first
+				miss int                 // index of a delegation the loader lacks, -1 = none
+			}
+			valid := func(n int, cmd string) []*delegation.Token {
+				var r []*delegation.Token
+				for i := 0; i < n; i++ {
+					r = append(r, mustDlg(alignedHolder(n, i+1), alignedHolder(n, i), 0, cmd, nil))
+				}
+				return r
+			}
+			expiredAt := func(n, k int, nbf bool) []*delegation.Token {
+				r := valid(n, "/a")
+				// constructors refuse bounds in the past: the token is built under a clock that reads two hours ago
+				restore := verifclock.InstallLocal(func() time.Time { return time.Now().Add(-2 * time.Hour) })
+				defer restore()
+				if nbf {
+					r[k] = mustDlg(alignedHolder(n, k+1), alignedHolder(n, k), 0, "/a", nil, delegation.WithNotBefore(time.Now().Add(24*time.Hour)))
+				} else {
+					r[k] = mustDlg(alignedHolder(n, k+1), alignedHolder(n, k), 0, "/a", nil, delegation.WithExpiration(past))
+				}
+				return r
+			}
+			var chains []chain
+			for n := 1; n <= 3; n++ {
+				chains = append(chains, chain{fmt.Sprintf("valid-%d", n), valid(n, "/a"), -1})
+				for k := 0; k < n; k++ {
+					chains = append(chains, chain{fmt.Sprintf("expired-%d@%d", n, k), expiredAt(n, k, false), -1})
+				}
+				chains = append(chains, chain{fmt.Sprintf("not-yet-active-%d@0", n), expiredAt(n, 0, true), -1})
+				chains = append(chains, chain{fmt.Sprintf("missing-%d@%d", n, n-1), valid(n, "/a"), n - 1})
+			}
+			broken := valid(3, "/a")
+			broken[1] = mustDlg(alignedHolder(3, 0), alignedHolder(3, 1), 0, "/a", nil) // issuer is not the audience of the next link
+			wrongSub := valid(2, "/a")
+			wrongSub[0] = mustDlg(alignedHolder(2, 1), alignedHolder(2, 0), 1, "/a", nil)
+			widen := valid(2, "/a")
+			widen[1] = mustDlg(alignedHolder(2, 2), alignedHolder(2, 1), 0, "/a/b", nil)
+			chains = append(chains, chain{"broken-link-3", broken, -1}, chain{"wrong-subject-2", wrongSub, -1}, chain{"widened-2", widen, -1})
+			var cs []engine.Call
+			for _, ch := range chains {
+				ch := ch
+				n := len(ch.dl)
+				ld := &sliceLoader{}
+				var prf []cid.Cid
+				for i, d := range ch.dl {
+					c := synthCid(1000 + n*4 + i) // the chains of one length name their proofs by the same CIDs, each invocation has its own loader
+					prf = append(prf, c)
+					if i != ch.miss {
+						ld.cids, ld.toks = append(ld.cids, c), append(ld.toks, d)
+					}
+				}
+				inv, err := invocation.New(prin(alignedHolder(n, 0)), prin(0), "/a", prf, invocation.WithNonce(fixedNonce), invocation.WithoutInvokedAt())
+				if err != nil {
+					panic(err)
+				}
+				cs = append(cs, engine.Call{Name: ch.name, Run: func() string { return errLabel(inv.ExecutionAllowed(ld)) }})
+				if strings.HasPrefix(ch.name, "valid") || strings.HasPrefix(ch.name, "expired") {
+					cs = append(cs, engine.Call{Name: ch.name + "/hook", Run: func() string { return errLabel(inv.ExecutionAllowedWithArgsHook(ld, identityHook)) }})
+				}
+			}
+			_ = prop
+			return cs
+		}, allPairs, 2, 3)
 }
